@@ -372,8 +372,10 @@ pub fn union_model(prepop: &Prepop, nlayers: usize) -> Tree {
     let mut entries: Vec<&(usize, String, Node)> = prepop.iter().collect();
     entries.sort_by_key(|e| std::cmp::Reverse(e.0 % n));
     for (_, p, node) in entries {
+        // (layers are processed lowest first: the implicit directory of an upper layer's entry
+        // wins over a same-named file of a lower layer, like an explicit one)
         for a in ancestors_of(p) {
-            t.m.entry(a).or_insert(Node::Dir);
+            t.m.insert(a, Node::Dir);
         }
         t.m.insert(p.clone(), node.clone());
     }
@@ -407,8 +409,12 @@ pub fn emb_prepop(cfg: &Cfg, prepop: Prepop) -> Prepop {
     let fixture = crate::embed::fixture_tree();
     let n = ls.len();
     let mut out: Prepop = vec![];
-    for (li, p, node) in prepop {
-        if ls[li % n] == Cfg::Emb {
+    // Dropping what was aimed at an embedded layer can remove the directory that sat above a
+    // shadowed file (see gen::make_prepop): such files go as well, so that no file ends up above
+    // a directory of a deeper layer.
+    let is_shadow_file = |p: &str, node: &Node| -> bool { matches!(node, Node::File(_)) && prepop.iter().any(|(_, q, m)| (q == p && matches!(m, Node::Dir)) || q.starts_with(&format!("{}/", p))) };
+    for (li, p, node) in prepop.iter().cloned() {
+        if ls[li % n] == Cfg::Emb || is_shadow_file(&p, &node) {
             continue;
         }
         let clash = match fixture.get(&p) {
